@@ -112,6 +112,7 @@ def run(rep, tier, seed, model_ok=True, effort=1):
             rep.violation("{pep440_version} text differs from to_pep440 beyond normalisation", input=inp, **{"class": "pep440-vs-cli"})
         rep.sample(dict(pattern=vp, version=s, pep440=p))
     show_streams(rep, impl)
+    update_streams(rep, impl)
     if model_ok:
         bad, errs = common.coq_eval("c15conv", HDR, "list N * option (list N)",
                                     "fun '(p, e) => match e with Some x => eqb_str (convert_to_pep440 p) x | None => true end", conv_items, shard=400)
@@ -124,6 +125,42 @@ def run(rep, tier, seed, model_ok=True, effort=1):
         for i in bad:
             rep.mismatch("text for {version}/{pep440_version}: model differs from implementation", input=dict(zip(("version_pattern", "version_text", "pep440_text"), txt_meta[i])))
         rep.corr_errors += errs
+
+
+def update_streams(rep, impl):
+    """after `bumpver update`, every written {version} text and every written {pep440_version} text in the files denote the announced version,
+    whichever way the two stand to each other on a line (PEP 440 form left or right of the plain form, alone, repeated)"""
+    import packaging.version as pv
+    from . import project
+    # (the patterns carry context: a bare {pep440_version} also matches inside the text of a bare {version}, and only the first match of a
+    #  pattern on a line is considered -- that ambiguity is not what this stream is about)
+    PV, PP = "release {version}", "demo=={pep440_version}"
+    layouts = [
+        ("pep-left-of-version", ['pip install "%s"   # %s' % (PP, PV), "- %s" % PP, "- %s" % PV]),
+        ("version-left-of-pep", ["%s (wheel for %s)" % (PV, PP), "- %s" % PP, "- %s" % PV]),
+        ("adjacent", ["%s,%s" % (PP, PV), "%s;%s" % (PV, PP)]),
+        ("separate-lines", ["- %s" % PP, "- %s" % PV]),
+    ]
+    for vp, cur, args in (("vMAJOR.MINOR.PATCH[-TAGNUM]", "v1.2.3-rc1", ["--tag-num"]), ("vYYYY0M.BUILD[-TAG]", "v202401.1009-beta", ["--date", "2024-03-05"]),
+                          ("MAJOR.MINOR.PATCH", "1.9.9", ["--minor"])):
+        for lname, lines in layouts:
+            for order in ([PV, PP], [PP, PV]):
+                prj = project.TempProject(vp, cur, files={"a.txt": order})
+                with prj:
+                    def both(v):
+                        return "".join(l.replace("{version}", prj.render("{version}", v)).replace("{pep440_version}", prj.render("{pep440_version}", v)) + "\n" for l in lines)
+                    open(prj.path("a.txt"), "w").write(both(cur))
+                    code, out, logs, exc = prj.run(impl, ["update", "--no-fetch"] + args)
+                    new = next((l.split("New Version: ", 1)[1] for l in logs if "New Version: " in l), None)
+                    got = open(prj.path("a.txt")).read()
+                    rep.case(("update-both", vp, lname, order[0]), nontrivial=code == 0)
+                    rep.count("update-both-placeholders")
+                    inp = dict(version_pattern=vp, current_version=cur, args=["update", "--no-fetch"] + args, patterns=order, layout=lname, exit=code, new=new, file_after=got)
+                    if code != 0 or not new:
+                        rep.violation("update fails on a file that holds both {version} and {pep440_version}", input=dict(inp, logs=logs[-3:]), **{"class": "update-both-fails"})
+                        continue
+                    if got != both(new):
+                        rep.violation("after update the {version} and {pep440_version} texts of the file do not all denote the announced version", input=dict(inp, want=both(new)), **{"class": "pep440-stale"})
 
 
 def show_streams(rep, impl):
